@@ -31,6 +31,7 @@ def make_module():
     m.UnspecifiedError = UnspecifiedError
     m.log = []
     m.handler = None
+    m.resid = None  # optional callable(event) -> residual byte count returned by execute()
     m.pre_hooks = []  # callables(event) run at the moment the command would hit the kernel
 
     def execute(file, cdb, data_out, data_in, max_sense_data_length=32, return_sense_buffer=False):
@@ -63,7 +64,8 @@ def make_module():
         ev["status"] = status
         ev["sense"] = sense
         if status == GOOD:
-            return 0
+            # cython-sgio returns the residual count of the data transfer
+            return int(m.resid(ev)) if m.resid is not None else 0
         if status == CHECK_CONDITION:
             raise CheckConditionError(sense)
         raise UnspecifiedError("SCSI status %#x" % status)
